@@ -22,6 +22,7 @@ RULE = ('cases = abstract command programs (exhaustive over all programs M + <=k
         'returns to the subpath start before Z; plus seeded random programs of 6-40 commands), each rendered under '
         '3 random legal lexical spellings and parsed by the real parser; distinct by (program, spelling seed); '
         'non-trivial if the post-condition compared the parse with the reference interpreter')
+RULE += '; plus d-strings in which one argument text follows both an arc and a non-arc command, and negative arc radii'
 ASSUMPTIONS = ['the reference interpreter (vt/ref/svgpath.py, ~100 lines, written from the spec prose) is right',
                'arcs whose end point equals the current point are not generated (the spec omits them; the library asserts)']
 EPS = gen.EPS
